@@ -19,7 +19,7 @@ What is proved.
   does not enclose the use site.
 * The unrestricted statement is **false of the code** (finding F12): `C17_no_private_route_refuted_*` are
   machine-checked witnesses (re-export of a private member; a module re-exporting its own private member;
-  wildcard import after a clashing re-export); `C17_no_private_route_false` is the negated universal statement.
+  the plain identifier that the re-export registers as a global alias); `C17_no_private_route_false` is the negated universal statement.
 * `C17_no_private_route_vismap`: for *all* trees, what the resolver enforces is exactly privacy w.r.t. its
   visibility map, at the name it checks — which localises the defect: `pub use` writes `true` into that map
   without looking at the target, and `convert_qualified_var` checks the name *before* following the alias chain.
@@ -80,8 +80,8 @@ theorem C17_no_private_route_refuted_self_reexport :
     ([1, 2], false) ∈ fnDecls (events f12self) ∧ ¬ ([1, 2] : Sym).dropLast <+: [] := by
   decide +kernel
 
-theorem C17_no_private_route_refuted_qualified_from_module :
-    resolveRef ⟨lowerInfo (events f12wild), knownOf (events f12wild), [3], []⟩ (.path [1, 2]) = ([1, 2], []) ∧
+theorem C17_no_private_route_refuted_ident :
+    resolveRef ⟨lowerInfo (events f12wild), knownOf (events f12wild), [3], []⟩ (.ident 2) = ([1, 2], []) ∧
     ([1, 2], false) ∈ fnDecls (events f12wild) ∧ ¬ ([1, 2] : Sym).dropLast <+: [3] := by
   decide +kernel
 
